@@ -363,4 +363,50 @@ def CoresAgree (fs : List BioFeature) : Prop :=
   ∀ g ∈ fs, g.type = "protocluster" → ∃ t core, g.q.coreLoc = some t ∧ locFromString t = some core ∧
     ∃ g' ∈ fs, g'.type = "proto_core" ∧ g'.q.protoNumber = g.q.protoNumber ∧ ∀ i, core.mem i = g'.loc.mem i
 
+/-! ### the write does not raise (hypothesis `writable`) -/
+
+def hasKey {α} (d : List (Int × α)) (k : Int) : Bool := (d.map (·.1)).contains k
+
+/-- a location-valued motif qualifier reads back to a location with at least one part -/
+def textOK : Option String → Bool
+  | none => true
+  | some t => match locFromString t with
+    | some l => !l.parts.isEmpty
+    | none => false
+
+/-- every lookup `_adjust_features` makes for this feature finds its key, and its motif texts read back -/
+def adjustable (rd : RegionData) (f : BioFeature) : Bool :=
+  if f.type == "region" then
+    f.q.candNumbers.all (hasKey (candDict rd)) && f.q.subNumbers.all (hasKey (subDict rd))
+  else if f.type == "cand_cluster" then
+    (match f.q.candNumber with | some n => hasKey (candDict rd) n | none => false) &&
+    (match f.q.protoNumbers with | some ps => ps.all (hasKey (protoDict rd)) | none => false)
+  else if f.type == "protocluster" || f.type == "proto_core" then
+    match f.q.protoNumber with | some n => hasKey (protoDict rd) n | none => false
+  else if f.type == "subregion" then
+    match f.q.subNumber with | some n => hasKey (subDict rd) n | none => false
+  else if f.type == "CDS_motif" then textOK f.q.leaderLoc && textOK f.q.tailLoc
+  else true
+
+/-- the feature passes one of the tests that put features into the region record -/
+def mayBeWritten (rd : RegionData) (L : Int) (f : BioFeature) : Bool :=
+  if rd.crossesOrigin then
+    (decide (rd.start ≤ f.loc.start) && decide (f.loc.end ≤ L)) || (decide (0 ≤ f.loc.start) && decide (f.loc.end ≤ rd.end)) ||
+    bridgesOrigin f.loc
+  else decide (rd.start ≤ f.loc.start) && decide (f.loc.end ≤ rd.end)
+
+/-- every feature that may end up in the region file is `adjustable` -/
+def writable (rd : RegionData) (rec : BioRecord) : Bool :=
+  rec.features.all fun f => !mayBeWritten rd rec.length f || adjustable rd f
+
+/-- the region's own feature: exactly one feature of type `region` passes the tests that put features into the
+    region record, and it has the region's location (hypothesis of `one_region`) -/
+def regionFeatureOK (rd : RegionData) (rec : BioRecord) : Bool :=
+  let L := rec.length
+  match rec.features.filter fun f => f.type == "region" && mayBeWritten rd L f with
+  | [f] =>
+    if rd.crossesOrigin then f.loc == .compound [⟨rd.start, L, .fwd⟩, ⟨0, rd.end, .fwd⟩]
+    else f.loc == .simple ⟨rd.start, rd.end, .fwd⟩
+  | _ => false
+
 end ASV.RegionExtract
